@@ -671,7 +671,7 @@ pub fn eval_c11(c: &Case, _fd: i32) -> Outcome {
         }
         if same_key && ha != hb {
             o.fail(
-                format!("C11:equal-keys-different-handle:{}", key_shape(&c.ty)),
+                format!("C11:equal-keys-different-handle:{}", key_struct_kind(&c.ty)),
                 format!(
                     "two samples with equal key members got different instance handles {} / {} ({}); type {}; a {}; b {}",
                     hex(&ha),
@@ -686,7 +686,7 @@ pub fn eval_c11(c: &Case, _fd: i32) -> Outcome {
         if !same_key && ha == hb {
             // an MD5 collision is not a realistic explanation; a padded collision means the key serialization lost information
             o.fail(
-                format!("C11:different-keys-same-handle:{}", key_shape(&c.ty)),
+                format!("C11:different-keys-same-handle:{}", key_struct_kind(&c.ty)),
                 format!(
                     "two samples with different key members got the same instance handle {} ({}); type {}; key a {:?}; key b {:?}",
                     hex(&ha),
